@@ -362,6 +362,30 @@ Proof.
   - apply (close_list_closes tk f s ds).
 Qed.
 
+(* one recur of a DoDoer whose pass does not raise: its flag becomes "my deque is empty";
+   it returns (Clean, exit of nothing, Exit) exactly when the deque is empty and it is not `always` *)
+Lemma gen_send_nest_done f s i pc t0 al kids s' r :
+  get_gen s i = GSusp pc -> get (defs s) i = Some (FNest t0 al kids) ->
+  gen_send tk (S f) s i = (s', r) ->
+  let s2 := fst (recur_pass tk f (emit (set_gen s i (GRun pc)) Recur i) i) in
+  let empty := match deeds (get_sched s2 i) with [] => true | _ => false end in
+  pass_ok (snd (recur_pass tk f (emit (set_gen s i (GRun pc)) Recur i) i)) = true ->
+  get_done s' i = Some empty /\ (r = GReturn <-> (empty = true /\ al = false)).
+Proof.
+  intros G Df E. rewrite gen_send_S, G, Df in E. cbv zeta in *.
+  destruct (recur_pass tk f _ i) as [s2 r0]. cbn [fst snd]. intro Ok.
+  assert (Fin : forall sx e, get_done (set_gen (emit (close_own tk f (emit (set_done sx i (Some e)) Clean i) i) Exit i) i GDone) i = Some e).
+  { intros sx e. change (get_done (set_gen (emit ?a _ _) _ _) ?j) with (get_done a j).
+    rewrite (closes_done _ _ i (close_own_closes tk f _ i)). apply get_done_same. }
+  destruct r0 as [t1| |kb|]; try discriminate; cbv beta iota zeta in E.
+  - destruct (deeds (get_sched s2 i)) eqn:Ed; destruct al; cbn [andb negb] in E; inversion E; subst;
+      (split; [first [apply Fin|apply get_done_same]|]); split; intro X; try discriminate; try reflexivity;
+      try (split; reflexivity); destruct X; discriminate.
+  - destruct (deeds (get_sched s2 i)) eqn:Ed; destruct al; cbn [andb negb] in E; inversion E; subst;
+      (split; [first [apply Fin|apply get_done_same]|]); split; intro X; try discriminate; try reflexivity;
+      try (split; reflexivity); destruct X; discriminate.
+Qed.
+
 End DoneLocal.
 
 (* ---------- whole runs ---------- *)
